@@ -83,3 +83,13 @@ Theorem C06_mark_router_keeps_denied : forall ch k remote st inb s,
   exists s', cache_get k (mark_router ch remote st) = Some (inb, s') /\ s' <> st_allowed.
 Proof. exact mark_router_keeps_denied. Qed.
 Print Assumptions C06_mark_router_keeps_denied.
+
+(* The passage of time (any pause; the periodic cleaner forgetting short-lived or all entries)
+   never re-opens a connection: after it, an inbound packet is handed to the local interface only
+   if it would have been before, or the inbound policy itself admits it. *)
+Theorem C06_time_never_opens : forall c pol ch long handle unsealed fsrc fdst k,
+  fst (inbound c pol (age_cache ch long) handle unsealed fsrc fdst k) = Deliver ->
+  fst (inbound c pol ch handle unsealed fsrc fdst k) = Deliver \/
+  check_in pol (p_proto k) (dport_of k) (p_src k) = true.
+Proof. exact age_never_opens. Qed.
+Print Assumptions C06_time_never_opens.
